@@ -685,6 +685,68 @@ func (w *world) sweep(t *rapid.T) {
 			}
 		}
 		w.versionsAgree("starknet_getClass "+what, rs, vs)
+		// Cairo 0 classes, and the class of a contract (getClassAt = getClass of getClassHashAt, at the same block id)
+		c0 := rapid.SampledFrom(w.u.Cairo0).Draw(t, "qclass0")
+		rs, vs = nil, nil
+		for _, e := range w.eps {
+			if ver(e.version) < id.minV {
+				continue
+			}
+			r := e.call(c, "starknet_getClass", id.id, c0.Hash.String())
+			rs, vs = append(rs, r), append(vs, e.version)
+			where := fmt.Sprintf("%s starknet_getClass(%v, cairo0 %s)", e.version, id.id, c0.Hash.ShortString())
+			if id.blk == nil {
+				w.expectCode(where, r, codeBlockNotFound)
+				continue
+			}
+			if _, declared := st.Classes[c0.Hash]; !declared {
+				w.expectCode(where, r, codeClassNotFound)
+			} else {
+				m, _ := r.Result.(map[string]any)
+				if m == nil || m["program"] != c0.Def.Program {
+					c.Violation("class", "%s: %s (declared Cairo 0 class program %.40q…)", where, trunc(r.raw), c0.Def.Program)
+				}
+				c.Label("cairo0-class-read")
+			}
+		}
+		w.versionsAgree("starknet_getClass(cairo0) "+what, rs, vs)
+		rs, vs = nil, nil
+		for _, e := range w.eps {
+			if ver(e.version) < id.minV {
+				continue
+			}
+			r := e.call(c, "starknet_getClassAt", id.id, addr.String())
+			rs, vs = append(rs, r), append(vs, e.version)
+			where := fmt.Sprintf("%s starknet_getClassAt(%v, %s)", e.version, id.id, addr.ShortString())
+			if id.blk == nil {
+				w.expectCode(where, r, codeBlockNotFound)
+				continue
+			}
+			ct := st.Contracts[addr]
+			switch {
+			case ct != nil && ct.System:
+				c.Label("system-contract-class-at") // 0x1/0x2 have no class: any clean answer
+			case ct == nil:
+				w.expectCode(where, r, codeContractNotFound)
+			default:
+				if _, declared := st.Classes[ct.ClassHash]; !declared {
+					c.Label("class-at-of-undeclared-class")
+					break
+				}
+				r2 := e.call(c, "starknet_getClass", id.id, ct.ClassHash.String())
+				if r.Error != nil || !reflect.DeepEqual(r.Result, r2.Result) {
+					c.Violation("class-at", "%s differs from getClass(%s) at the same block: %s vs %s", where, ct.ClassHash.ShortString(), trunc(r.raw), trunc(r2.raw))
+				}
+				if s := w.u.SierraByHash(ct.ClassHash); s != nil {
+					m, _ := r.Result.(map[string]any)
+					if m == nil || m["abi"] != s.Def.Abi {
+						c.Violation("class-at", "%s: %s (the contract's class at that block is %s, abi %q)", where, trunc(r.raw), ct.ClassHash.ShortString(), s.Def.Abi)
+					}
+				}
+				c.Label("class-at-read")
+			}
+		}
+		w.versionsAgree("starknet_getClassAt "+what, rs, vs)
 		// ---------- transaction by (block id, index)
 		if id.blk != nil {
 			n := len(id.blk.B.Transactions)
